@@ -51,7 +51,8 @@ ASSUMPTIONS = [
 ]
 NOT_DECIDED = ['"up to conditioning-scaled rounding": only the exact identity is proved',
                'numerical non-singularity of the moment system for a given floating-point ratio']
-BOUNDED = ['integer-quotients: LogRule._apply on int64 / int32 / float32 tables compared with float64 (18 concrete cases, executed, not proved)']
+BOUNDED = ['rules-concrete: 4 methods x n = 1..10 x order {1,2,3,4,6} x ratios {2, 1.6}: the real rule applied to the real quotient of a polynomial in floating point -- executed, not proved',
+           'integer-quotients: LogRule._apply on int64 / int32 / float32 tables compared with float64 (18 concrete cases, executed, not proved)']
 QUANTIFIED = 'x, h > 0, step ratio (q = 1/r in (0,1)), all Taylor coefficients b_k: universally quantified reals; ' \
              'n, order: enumerated over the grid, and universally quantified integers in the ints[...] groups'
 
@@ -82,6 +83,7 @@ def groups(tier):
     # the cfg groups take make_exact by contract (identity in real arithmetic): the contract is discharged here on the real bodies,
     # so the rule is built for the ratio the steps are taken on
     out.append(('contract:make_exact', ('dep', 'C10', 'run_exact', (), {})))
+    out.append(('rules-concrete', ('rconc',)))
     return out
 
 
@@ -487,7 +489,27 @@ def run_intq():
     return {}
 
 
+def run_rconc():
+    """the rule of every (method, n, order) of the grid applied to the real difference quotient of a polynomial of degree n + order - 1 in
+    floating point (nothing stubbed, no dependency contract): the n-th derivative to conditioning-scaled rounding.  Executed, not proved"""
+    from ndvc import native_C06
+    ns, orders = grid('thorough')
+    for method in METHODS:
+        bad = []
+        cnt = 0
+        for n in ns[:10]:
+            for order in (1, 2, 3, 4, 6):
+                cnt += 1
+                r = native_C06._c06_exact_one(dict(method=method, n=n, order=order, step_ratios=[2.0, 1.6], x=0.3, h=0.5))
+                if r.get('reproduced'):
+                    bad.append((n, order, str({k: v for k, v in r.items() if k not in ('reproduced', 'statement')})[:160]))
+        solve.fact('rule-applied-to-the-quotient-of-a-polynomial-of-degree-n+order-1==its-nth-derivative[%s,n=1..10,%d configurations]' % (method, cnt), not bad, kind='bounded', note=str(bad[:2])[:400])
+    return {}
+
+
 def run_group(args):
+    if args[0] == 'rconc':
+        return run_rconc()
     if args[0] == 'dep':
         import importlib
         return getattr(importlib.import_module('props.' + args[1]), args[2])(*args[3], **args[4])
@@ -513,6 +535,9 @@ def replay_case(ob):
         return dict(kind='C06.cache0')
     if ob['name'].startswith('integer-quotients/'):
         return dict(kind='C06.intq')
+    if ob['name'].startswith('rules-concrete/'):
+        mm = re.search(r'\[(\w+),n=1', ob['name'])
+        return dict(kind='C06.exact', method=mm.group(1) if mm else 'central', n=1, order=2, step_ratios=[2.0, 1.6], x=0.3, h=0.5, history=[], scan=True)
     if ob['name'].startswith('contract:make_exact/'):
         return dict(kind='C06.exact', method='forward', n=2, order=2, step_ratios=[2 ** 0.5, 1.23456789, 3.0 ** 0.5], x=0.3, h=0.5, history=[])
     mm = re.search(r'cfg\[(\w+),n=(\d+)\]/order=(\d+)/', ob['name'])
